@@ -87,7 +87,10 @@ Section Run.
            result_eqb res (s_res seen) &&
            same_set N.eqb (map c_id (w_cache w')) (s_cache seen) &&
            same_set pair_eqb (map (fun kv => (fst kv, c_id (snd kv))) (w_store w')) (s_store seen)) in
-        let spec := spec_hs is_space (w_od w) (h_name h) (hit_key w h) (s_effects seen) && no_selfwait (s_effects seen) in
+        (* ... and every handshake ends with an error or a COMPLETE certificate (non-empty chain and
+           private key): never the empty certificate with a nil error *)
+        let spec := spec_hs is_space (w_od w) (h_name h) (hit_key w h) (s_effects seen) && no_selfwait (s_effects seen) &&
+                    match s_res seen with REmpty => false | _ => true end in
         let '(a, s) := replay w' r in
         (agree && a, spec && s)
     end.
